@@ -34,10 +34,27 @@ Two kinds of cases.
                               errors None or one of MD5_ERRORS; optional (DEFAULT_MD5_CALLS)
  "open":     "fileobj" | "filename"
  "writer":   "harness" | "dpkg-deb:gzip" | "dpkg-deb:xz" | "dpkg-deb:none"   (optional)
+ "layout":   {...}            which members the two tarballs hold besides the files (optional, harness
+                              writer only; every key optional, default = what dpkg-deb writes):
+                "data_root": bool      the './' entry of data.tar is written
+                "data_dirs": bool      the ancestor directories of files and empty directories are written
+                "empty_dirs": [names]  directories with nothing in them (always written as members)
+                "control_root": bool   the './' entry of control.tar is written
+                "md5sums_file": bool   the md5sums list is stored; false only for a package without data
+                                       files - its list would be empty - then md5sums() must fail with
+                                       DebError (documented) or answer {}
+                              With no files, no empty_dirs and data_root false the data tarball has NO
+                              members at all (a valid tar archive: the end-of-archive marker only); with
+                              no scripts, control_root and md5sums_file false control.tar holds only
+                              ./control.
 }
    The md5sums file always lists every data file with its real md5.
 
-   Every reader is put through three rounds.  (1) All answers are compared with what was packed;
+   Every reader is put through three rounds.  (1) All answers are compared with what was packed
+   (for each part: every file, every directory written as a member and a list of absent names - always
+   'no-such-file' and 'no such/file', so also in a part with no members at all - are queried with
+   has_file / in / get_content / get_file / [] in the three spellings; for the control part the absent
+   names include every maintainer script that was not packed);
    the md5calls are made in the given order, each answer compared with the packed map whose names
    are decoded as that call asked (a name that cannot be decoded as asked: UnicodeError/DebError or
    any answer; a name that decodes to nothing or to leading white space: not judged; a call WITH an
@@ -99,7 +116,11 @@ RULE = ("package cases are (control fields, subset of maintainer scripts, 0..5 d
         "after the returned maps were modified), and for every file "
         "and directory the 'name', './name', '/name' spellings of has_file/in/get_content/get_file/[]; "
         "absent names include each of the first two names with a blank or tab appended and stripped of "
-        "outer white space. Every reader is then asked again after the mappings it returned were modified "
+        "outer white space, and in the control part the scripts that were not packed. Each package also draws a layout of its tarballs - "
+        "'./' entry written or not (each part), directory members written or not, 0..2 directories with nothing in them, the "
+        "(empty) md5sums list of a package without files stored or not - so that data.tar may have no members at all, only './', "
+        "only directories, only files, and control.tar only ./control; these degenerate containers are also enumerated "
+        "(9 data shapes x 5 control shapes x 3 tar formats x 2 open modes, 5 compression pairs each, all 25 pairs covered per shape). Every reader is then asked again after the mappings it returned were modified "
         "in place, and again while/after a reader for a different fixed package is opened and closed and "
         "five kinds of defective archive are rejected; a bystander reader of a third package, opened "
         "before the case's archives, must answer unchanged after each of them (also after each rejected "
@@ -110,7 +131,8 @@ RULE = ("package cases are (control fields, subset of maintainer scripts, 0..5 d
         "tgz, prefixes, debian-binary~ ...) each replace each part of a complete set (2 orders x 2 open modes), both parts, "
         "and join a complete set; random sets mix candidates with base name + arbitrary suffix. Thorough adds packages built by dpkg-deb. Non-trivial = a package with a data "
         "file whose name has a blank, a non-ASCII character or white space at the end of a component, or with two different compressions in "
-        "one pair; or a defective member set; distinct = distinct canonical JSON of the case")
+        "one pair, or whose tarballs are not laid out the dpkg-deb way (a part without './' entry, without directory members, "
+        "without any member, with only directories, control.tar with ./control only); or a defective member set; distinct = distinct canonical JSON of the case")
 ASSUMPTIONS = [
     "harness writers for ar/tar/compression (vcheck/gen/c06_archives.py; tarfile, gzip, bz2, lzma of the standard library)",
     "control values are generated in the parser's normal form (no white space at line ends, continuation "
@@ -146,6 +168,12 @@ ASSUMPTIONS = [
     "case's own package is the arbitrary one",
     "queries for absent names: has_file must be False in all spellings; content queries must fail "
     "the same way (KeyError or DebError) in all spellings - which of the two is not prescribed",
+    "degenerate but valid containers: a tar archive that consists of the end-of-archive marker only (no members) is a "
+    "valid data part of a package with 0 data files; the './' entry and the directory entries are optional in both parts "
+    "(files are always stored as ./name). Membership of a directory is demanded only when the directory was written as a "
+    "member; content queries on a directory must give the same outcome (None, KeyError or DebError) in the three spellings. "
+    "A package without data files may omit its (empty) md5sums list: md5sums() must then raise DebError (docstring: 'Fails "
+    "if the control part does not contain a md5sum file') or return {}; nothing else about a missing list is demanded",
     "dpkg-deb --build as second writer when /usr/bin/dpkg-deb exists (thorough tier)",
     "Hypothesis 6.168 generators; sha1 for distinctness",
 ]
@@ -157,6 +185,10 @@ EXHAUSTIVE = {
              "19 non-printable characters x 6 positions in a control value; "
              "17 non-printable characters (the 8 that str.splitlines() cuts at, US, CR, 7 others) x 6 positions in a data file name "
              "(CR: 5), md5sums asked with and without encoding; "
+             "degenerate containers: 9 data.tar shapes (no members; only './'; only directories with / without './'; one directory and "
+             "nothing else; one file and nothing else; one empty top-level file; files without directory members; files + empty "
+             "directory without './') x 5 control.tar shapes (dpkg-deb style; no './'; ./control only; './' + control; scripts "
+             "without './') x 3 tar formats x 2 open modes, 5 compression pairs each; "
              "every one of these cases with a bystander reader open, and every accepted archive with the "
              "modify-and-ask-again round and the second-reader / 5 rejected archives round",
     "thorough": "all 2048 subsets of {debian-binary} + 5 control candidates + 5 data candidates, x 2 member orders x 2 open modes; "
@@ -166,6 +198,10 @@ EXHAUSTIVE = {
                 "19 non-printable characters x 6 positions in a control value; "
              "17 non-printable characters (the 8 that str.splitlines() cuts at, US, CR, 7 others) x 6 positions in a data file name "
              "(CR: 5), md5sums asked with and without encoding; "
+             "degenerate containers: 9 data.tar shapes (no members; only './'; only directories with / without './'; one directory and "
+             "nothing else; one file and nothing else; one empty top-level file; files without directory members; files + empty "
+             "directory without './') x 5 control.tar shapes (dpkg-deb style; no './'; ./control only; './' + control; scripts "
+             "without './') x 3 tar formats x 2 open modes, 5 compression pairs each; "
                 "every one of these cases with a bystander reader open, and every accepted archive with the "
                 "modify-and-ask-again round and the second-reader / 5 rejected archives round",
 }
@@ -257,6 +293,43 @@ def _tree_conflict(names):
     return bool(files & dirs)
 
 
+LAYOUT_DEFAULT = {"data_root": True, "data_dirs": True, "empty_dirs": [], "control_root": True, "md5sums_file": True}
+
+
+def layout_of(case):
+    """The case's layout with the defaults filled in (what dpkg-deb writes)."""
+    lay = dict(LAYOUT_DEFAULT)
+    lay.update(case.get("layout") or {})
+    return lay
+
+
+def _valid_layout(case, fnames):
+    lay = case.get("layout")
+    if lay is None:
+        return True
+    if not isinstance(lay, dict) or any(k not in LAYOUT_DEFAULT for k in lay):
+        return False
+    if case.get("writer", "harness") != "harness":
+        return False
+    lay = layout_of(case)
+    if not all(type(lay[k]) is bool for k in ("data_root", "data_dirs", "control_root", "md5sums_file")):
+        return False
+    dirs = lay["empty_dirs"]
+    if not isinstance(dirs, list) or not all(_valid_filename(d) for d in dirs) or len(set(dirs)) != len(dirs):
+        return False
+    if _tree_conflict(fnames + [d + "/x" for d in dirs]):      # a directory is no file, nor below one
+        return False
+    return lay["md5sums_file"] or not fnames
+
+
+def data_dirs_of(case):
+    """(directories written as members of data.tar, all directories that exist in the package)."""
+    lay = layout_of(case)
+    fnames = [n for n, _ in case["files"]]
+    every = A.parent_dirs(fnames + [d + "/x" for d in lay["empty_dirs"]])
+    return (every if lay["data_dirs"] else list(lay["empty_dirs"])), every
+
+
 def valid_package(case):
     try:
         ctrl = case["control"]
@@ -276,6 +349,8 @@ def valid_package(case):
         for _, d in case["files"]:
             s2b(d)
         if case["tarfmt"] not in A.TAR_FORMATS or case["open"] not in ("fileobj", "filename"):
+            return False
+        if not _valid_layout(case, fnames):
             return False
         if not case["variants"] or not all(len(p) == 2 and p[0] in COMPS and p[1] in COMPS for p in case["variants"]):
             return False
@@ -315,6 +390,29 @@ def control_text(fields):
 def md5sums_text(files):
     return b"".join(hashlib.md5(d).hexdigest().encode("ascii") + b"  " + n.encode("utf-8") + b"\n"
                     for n, d in files)
+
+
+def build_data_tar(case, files):
+    """data.tar as the layout says: ['./'] [directories, parents first] files as ./name."""
+    written, _ = data_dirs_of(case)
+    entries = [("./", None)] if layout_of(case)["data_root"] else []
+    entries += [("./" + d, None) for d in written]
+    entries += [("./" + n, d) for n, d in files]
+    return A.tar_bytes(entries, case["tarfmt"])
+
+
+def control_members(case, files):
+    """The files of control.tar: control, md5sums unless the layout leaves the (empty) list out, scripts."""
+    out = [("control", control_text(case["control"]))]
+    if layout_of(case)["md5sums_file"]:
+        out.append(("md5sums", md5sums_text(files)))
+    return out + sorted((k, s2b(v)) for k, v in case["scripts"].items())
+
+
+def build_control_tar(case, files):
+    entries = [("./", None)] if layout_of(case)["control_root"] else []
+    entries += [("./" + n, d) for n, d in control_members(case, files)]
+    return A.tar_bytes(entries, case["tarfmt"])
 
 
 def _styled(members, style="gnu"):
@@ -390,7 +488,9 @@ def _content_queries(part, spelled):
     return outs
 
 
-def _check_part_files(part, what, files, dirs, labels):
+def _check_part_files(part, what, files, dirs, labels, implied=(), more_absent=()):
+    """files: [(name, bytes)] packed; dirs: directories written as members; implied: paths that
+    exist without being members (nothing is demanded for them); more_absent: further absent names."""
     for name, data in files:
         for sp in _spellings(name):
             if part.has_file(sp) is not True or (sp in part) is not True:
@@ -400,12 +500,16 @@ def _check_part_files(part, what, files, dirs, labels):
                     raise Violation("file-content", "%s: %s(%r) gave %s, packed %s" % (
                         what, how, sp, short(r, 80), short(data, 80)))
     for d in dirs:
+        outcomes = []
         for sp in _spellings(d):
             if part.has_file(sp) is not True or (sp in part) is not True:
                 raise Violation("membership", "%s: has_file(%r)/in is not True for a packed directory" % (what, sp))
-    present = set(n for n, _ in files) | set(dirs)
-    absent = ["no-such-file", "no such/file"]
-    for name, _ in files[:2]:
+            outcomes.append(_content_queries(part, sp))
+        if outcomes[0] != outcomes[1] or outcomes[0] != outcomes[2]:
+            raise Violation("spelling-disagreement", "%s: content queries for the directory %r: %s" % (what, d, short(outcomes)))
+    present = set(n for n, _ in files) | set(dirs) | set(implied)
+    absent = ["no-such-file", "no such/file"] + list(more_absent)
+    for name in [n for n, _ in files[:2]] + (list(dirs[-2:]) if len(files) < 2 else []):
         absent += [name + "x", name[:-1], name + "/x", name.swapcase(), name + " ", name + "\t", name.strip()]
     for name in absent:
         if name in present or not _valid_filename(name):
@@ -458,6 +562,9 @@ def _check_summary(deb, case, what):
                          ("control.md5sums(encoding='utf-8')", deb.control.md5sums, "utf-8"),
                          ("control.md5sums()", deb.control.md5sums, None)):
         exp = _md5_model(files, enc, None)
+        if not layout_of(case)["md5sums_file"]:
+            _check_no_md5_list(lambda: fn(encoding=enc) if enc else fn(), what, how)
+            continue
         try:
             got = fn(encoding=enc) if enc else fn()
         except ValueError:
@@ -501,6 +608,18 @@ def _md5_model(files, encoding, errors):
     return None if unjudged else out
 
 
+def _check_no_md5_list(call, what, how):
+    """A package without data files whose (empty) md5sums list was not stored: the documented
+    failure, or the empty map."""
+    try:
+        got = call()
+    except DebError:
+        return
+    if got != {} or type(got) is not dict:
+        raise Violation("md5sums", "%s: %s = %s for a package without data files and without md5sums list" % (
+            what, how, short(got, 200)))
+
+
 def _check_md5_calls(deb, case, calls, what, labels):
     """Every call in turn on the same reader, each judged on its own; returns the maps handed out."""
     files = [(n, s2b(d)) for n, d in case["files"]]
@@ -509,6 +628,10 @@ def _check_md5_calls(deb, case, calls, what, labels):
     for route, enc, err in calls:
         fn = deb.md5sums if route == "deb" else deb.control.md5sums
         how = "%s.md5sums(encoding=%r, errors=%r)" % ("DebFile" if route == "deb" else "control", enc, err)
+        if not layout_of(case)["md5sums_file"]:
+            _check_no_md5_list(lambda: fn(encoding=enc, errors=err), what, how)
+            labels.add("md5sums:asked-without-a-list")
+            continue
         exp = _md5_model(files, enc, err)
         try:
             got = fn(encoding=enc, errors=err)
@@ -577,10 +700,12 @@ def _check_package(deb, case, what, labels):
     files = [(n, s2b(d)) for n, d in case["files"]]
     handed = _check_summary(deb, case, what)
     # control part: the same three spellings
-    cfiles = [("control", control_text(ctrl)), ("md5sums", md5sums_text(files))]
-    cfiles += sorted(scripts.items())
-    _check_part_files(deb.control, what + " control part", cfiles, [], labels)
-    _check_part_files(deb.data, what + " data part", files, A.parent_dirs([n for n, _ in files]), labels)
+    cfiles = control_members(case, files)
+    cnames = [n for n, _ in cfiles]
+    _check_part_files(deb.control, what + " control part", cfiles, [], labels,
+                      more_absent=[n for n in SCRIPTS + ["md5sums"] if n not in cnames])
+    written, every = data_dirs_of(case)
+    _check_part_files(deb.data, what + " data part", files, written, labels, implied=every)
     # interleaved access: both parts live in one archive (and, opened from a file object, share
     # it), so what one part returns must not depend on what the other was asked in between
     if files:
@@ -756,6 +881,27 @@ def check_package(case):
     if any(not (c.isprintable() or c.isspace()) for n, _ in files for c in n):
         labels.add("filename-with-control-character")
     writer = case.get("writer", "harness")
+    lay = layout_of(case)
+    written, every = data_dirs_of(case)
+    if writer == "harness":
+        if not files and not written:
+            labels.add("data-part:no-members-at-all" if not lay["data_root"] else "data-part:only-the-root-entry")
+        elif not files:
+            labels.add("data-part:only-directories")
+        if not lay["data_root"]:
+            labels.add("data-part:no-root-entry")
+        if len(written) < len(every):
+            labels.add("data-part:files-without-directory-members")
+        if lay["empty_dirs"]:
+            labels.add("data-part:empty-directory")
+        if not lay["control_root"]:
+            labels.add("control-part:no-root-entry")
+        if not lay["md5sums_file"]:
+            labels.add("control-part:no-md5sums-list")
+        if not lay["control_root"] and not lay["md5sums_file"] and not case["scripts"]:
+            labels.add("control-part:only-the-control-file")
+        if any(l.startswith(("data-part:", "control-part:")) and l != "data-part:only-the-root-entry" for l in labels):
+            fancy = True
     op = _Opened(case["open"])
     mixed = False
     bystander = _Bystander()
@@ -777,10 +923,8 @@ def check_package(case):
                 _check_reader(deb, case, "dpkg-deb -Z%s" % z, labels, op)
             bystander.again("a package built by dpkg-deb was opened, read and closed")
             return (fancy, sorted(labels))
-        scripts = sorted((k, s2b(v)) for k, v in case["scripts"].items())
-        ctar = A.control_tar([("control", control_text(case["control"])), ("md5sums", md5sums_text(files))] + scripts,
-                             case["tarfmt"])
-        dtar = A.data_tar(files, case["tarfmt"])
+        ctar = build_control_tar(case, files)
+        dtar = build_data_tar(case, files)
         cblob, dblob = {}, {}
         for cc, dc in case["variants"]:
             if cc not in cblob:
@@ -1119,17 +1263,44 @@ md5call_st = st.tuples(st.sampled_from(["deb", "deb", "control"]),
 md5calls_st = st.lists(md5call_st, min_size=2, max_size=6)
 
 
+# how the tarballs are laid out: mostly the dpkg-deb way (the first element, which is also what
+# Hypothesis shrinks to)
+_mostly = st.sampled_from([True, True, True, False])
+layout_st = st.fixed_dictionaries({"data_root": _mostly, "data_dirs": _mostly,
+                                   "empty_dirs": st.one_of(st.just([]), st.just([]), st.lists(filename_st, max_size=2, unique=True)),
+                                   "control_root": _mostly, "md5sums_file": _mostly})
+
+
+def _fit_layout(case):
+    """Make the drawn layout fit the drawn files: an empty directory is neither a file nor below one
+    (nor listed twice); the md5sums list may be left out only when it would be empty."""
+    lay = dict(case["layout"])
+    fnames = [n for n, _ in case["files"]]
+    dirs = []
+    for d in lay["empty_dirs"]:
+        if d not in dirs and not _tree_conflict(fnames + [d + "/x"]):
+            dirs.append(d)
+    lay["empty_dirs"] = dirs
+    if fnames:
+        lay["md5sums_file"] = True
+    return dict(case, layout=lay)
+
+
 def package_st(nvariants):
     if nvariants >= 25:
         variants = st.just(ALL_PAIRS)
     else:
         variants = st.lists(pair_st, min_size=1, max_size=nvariants, unique=True)
+    return _package_st(variants).map(_fit_layout)
+
+
+def _package_st(variants):
     return st.fixed_dictionaries({
         "kind": st.just("package"), "control": control_st(), "scripts": scripts_st, "files": files_st,
         "tarfmt": st.sampled_from(["gnu", "pax", "ustar"]), "variants": variants,
         "binary_pos": st.sampled_from([0, 0, 1, 2]), "extra": st.booleans(),
         "ar_style": st.sampled_from(["gnu", "pad"]),
-        "md5calls": md5calls_st,
+        "md5calls": md5calls_st, "layout": layout_st,
         "open": st.sampled_from(["fileobj", "fileobj", "filename"])})
 
 
@@ -1235,6 +1406,46 @@ def enum_big_files(sizes):
     return gen
 
 
+DEGENERATE_DATA = [      # (what, files, empty directories, './' written, directory members written)
+    ("no members at all", [], [], False, True),
+    ("only ./", [], [], True, True),
+    ("only directories", [], ["usr", "usr/share/empty dir ", "var"], True, True),
+    ("only directories, no ./", [], ["usr/share/doc", "var/lib/a b"], False, True),
+    ("one directory and nothing else", [], ["opt/alone"], False, False),
+    ("one file and nothing else", [["usr/bin/a b", "x\n"]], [], False, False),
+    ("one empty top-level file and nothing else", [["f", ""]], [], False, False),
+    ("files without directory members", [["usr/bin/x", "#!/bin/sh\n"], ["usr/share/doc/x/a b", "\x00\xff"]], [], True, False),
+    ("files, an empty directory, no ./", [["etc/conf ", "blank"], ["etc/conf", "none"]], ["var/empty", "etc/conf.d"], False, True),
+]
+DEGENERATE_CONTROL = [   # (what, scripts, './' written, md5sums list stored)
+    ("dpkg-deb style", {}, True, True),
+    ("no ./", {}, False, True),
+    ("./control only", {}, False, False),
+    ("./ and control only", {"prerm": ""}, True, False),
+    ("scripts, no ./", {"postinst": "#!/bin/sh\nexit 0\n", "config": "\x00"}, False, True),
+]
+
+
+def enum_degenerate_containers():
+    """Tarballs that hold less than dpkg-deb would write - down to no member at all - but are valid
+    containers of the stated content; every shape in 3 tar formats x 2 open modes, each case in 5
+    compression pairs (every data compression; the control compression rotates, so that each shape
+    meets all 25 pairs)."""
+    k = 0
+    for _, files, dirs, root, dmembers in DEGENERATE_DATA:
+        for _, scripts, croot, md5file in DEGENERATE_CONTROL:
+            if files and not md5file:
+                continue
+            for fmt in ("gnu", "pax", "ustar"):
+                for mode in ("fileobj", "filename"):
+                    yield {"kind": "package", "control": _FIXED_CTRL, "scripts": scripts, "files": files,
+                           "tarfmt": fmt, "variants": [[COMPS[(i + k) % 5], COMPS[i]] for i in range(5)],
+                           "binary_pos": k % 3, "extra": False, "ar_style": ("gnu", "pad")[(k // 3) % 2], "open": mode,
+                           "layout": {"data_root": root, "data_dirs": dmembers, "empty_dirs": dirs,
+                                      "control_root": croot, "md5sums_file": md5file}}
+                    k += 1
+
+
 def sources(tier):
     if tier == "quick":
         return [Enum("member-sets", enum_member_sets, "every subset of debian-binary + 5 control + 5 data candidates"),
@@ -1243,6 +1454,7 @@ def sources(tier):
                 Enum("look-alike-members", enum_lookalikes, "each part replaced by each look-alike name x 2 orders x 2 open modes; look-alike added to a complete set"),
                 Enum("odd-control-values", enum_odd_control_values, "each non-printable / line-boundary character x 6 positions in a control value"),
                 Enum("odd-file-names", enum_odd_file_names, "each non-printable / line-boundary character (also CR) x 6 positions in a data file name"),
+                Enum("degenerate-containers", enum_degenerate_containers, "9 data.tar shapes (no members ... files without directory members) x 5 control.tar shapes x 3 tar formats x 2 open modes, 5 compression pairs each"),
                 Hyp("packages", package_st(5), 60, shards=8),
                 Hyp("member-sets-random", members_st, 300, shards=1),
                 Hyp("dpkg-deb", dpkg_package_st(), 12, shards=1),
@@ -1253,6 +1465,7 @@ def sources(tier):
             Enum("look-alike-members", enum_lookalikes, "each part replaced by each look-alike name x 2 orders x 2 open modes; look-alike added to a complete set"),
             Enum("odd-control-values", enum_odd_control_values, "each non-printable / line-boundary character x 6 positions in a control value"),
             Enum("odd-file-names", enum_odd_file_names, "each non-printable / line-boundary character (also CR) x 6 positions in a data file name"),
+            Enum("degenerate-containers", enum_degenerate_containers, "9 data.tar shapes (no members ... files without directory members) x 5 control.tar shapes x 3 tar formats x 2 open modes, 5 compression pairs each"),
             Hyp("packages", package_st(25), 200, shards=16),
             Hyp("member-sets-random", members_st, 2000, shards=2),
             Hyp("dpkg-deb", dpkg_package_st(), 30, shards=8),
